@@ -253,7 +253,10 @@ def configs (quick):
       # every line of recoco.py as a scheduling point, one deviation
       cs.append(dict(base, funcs=None, bound=1))
       if not quick:
-        cs.append(dict(base, bound=3))
+        # three deviations; not for the call-later scenario, whose bound-3 space (two foreign threads x two hand-overs
+        # each, plus the scheduler and hub threads) does not complete within an hour - it gets more calls / threads
+        # at bound 2 instead (below and above)
+        if name != "calllater": cs.append(dict(base, bound=3))
         # (bytecode-granularity tracing is not used: CPython 3.12.1 is not deterministic - and can crash - under
         #  per-instruction tracing across threads; see DESIGN.md 9.2)
         cs.append(dict(base, funcs=None, bound=2))
